@@ -1038,6 +1038,41 @@ theorem gen_hsv2rgb_rgb2hsv {fl : α → Int} (hfl : IsFloor fl) (x y z : α) (h
   generalize Gen.Color.hsv2rgbV3 (fun t => ((fl t : Int) : α)) (Gen.Color.rgb2hsvV3 ⟨x, y, z⟩) = w at e ⊢
   cases w; exact e
 
+/-- the other direction on the REGENERATED definitions: for 0 ≤ h < 1, s > 0, v > 0, rgb2hsv (hsv2rgb ⟨h, s, v⟩) = ⟨h, s, v⟩ -/
+theorem gen_rgb2hsv_hsv2rgb {fl : α → Int} (hfl : IsFloor fl) (h s v : α) (h0 : 0 ≤ h) (h1 : h < 1) (hs : 0 < s) (hv : 0 < v) :
+    Gen.Color.rgb2hsvV3 (Gen.Color.hsv2rgbV3 (fun t => ((fl t : Int) : α)) ⟨h, s, v⟩) = ⟨h, s, v⟩ := by
+  have a1 := gen_rgb2hsvV3 (α := α) (Gen.Color.hsv2rgbV3 (fun t => ((fl t : Int) : α)) ⟨h, s, v⟩)
+  have a2 := gen_hsv2rgbV3 fl (⟨h, s, v⟩ : ImathVerif.V3 α)
+  rw [a2] at a1
+  have a3 := (rgb2hsv_hsv2rgb hfl).1 h s v h0 h1 hs hv
+  simp only [toV3] at a1 a3
+  rw [a3] at a1
+  have e := congrArg (fun w : ColorAlgo.V3 α => (⟨w.x, w.y, w.z⟩ : ImathVerif.V3 α)) a1
+  simp only at e
+  generalize Gen.Color.rgb2hsvV3 (Gen.Color.hsv2rgbV3 (fun t => ((fl t : Int) : α)) ⟨h, s, v⟩) = w at e ⊢
+  cases w; exact e
+
+/-- the Color4 copies of the REGENERATED definitions agree with the Vec3 copies on (r, g, b) and pass alpha through -/
+theorem gen_color4_agrees_with_vec3 (fl : α → Int) (c : ImathVerif.C4 α) :
+    Gen.Color.hsv2rgbC4 (fun t => ((fl t : Int) : α)) c =
+      ⟨(Gen.Color.hsv2rgbV3 (fun t => ((fl t : Int) : α)) ⟨c.r, c.g, c.b⟩).x, (Gen.Color.hsv2rgbV3 (fun t => ((fl t : Int) : α)) ⟨c.r, c.g, c.b⟩).y,
+       (Gen.Color.hsv2rgbV3 (fun t => ((fl t : Int) : α)) ⟨c.r, c.g, c.b⟩).z, c.a⟩ ∧
+    Gen.Color.rgb2hsvC4 c =
+      ⟨(Gen.Color.rgb2hsvV3 ⟨c.r, c.g, c.b⟩).x, (Gen.Color.rgb2hsvV3 ⟨c.r, c.g, c.b⟩).y, (Gen.Color.rgb2hsvV3 ⟨c.r, c.g, c.b⟩).z, c.a⟩ := by
+  have b1 := gen_hsv2rgbC4 fl c
+  have b2 := gen_hsv2rgbV3 fl (⟨c.r, c.g, c.b⟩ : ImathVerif.V3 α)
+  have b3 := gen_rgb2hsvC4 (α := α) c
+  have b4 := gen_rgb2hsvV3 (α := α) (⟨c.r, c.g, c.b⟩ : ImathVerif.V3 α)
+  have m := color4_agrees_with_vec3 fl (toC4 c)
+  simp only [toC4, toV3] at b1 b2 b3 b4 m
+  rw [m.1] at b1; rw [m.2] at b3
+  rw [← b2] at b1; rw [← b4] at b3
+  constructor
+  · generalize Gen.Color.hsv2rgbC4 (fun t => ((fl t : Int) : α)) c = w at b1 ⊢
+    cases w; simp only [ColorAlgo.C4.mk.injEq] at b1; simp only [ImathVerif.C4.mk.injEq]; exact b1
+  · generalize Gen.Color.rgb2hsvC4 c = w at b3 ⊢
+    cases w; simp only [ColorAlgo.C4.mk.injEq] at b3; simp only [ImathVerif.C4.mk.injEq]; exact b3
+
 /-- non-vacuity: the regenerated round trip on a concrete colour of ℚ with the true floor -/
 example : Gen.Color.hsv2rgbV3 (α := ℚ) (fun t => ((Int.floor t : Int) : ℚ)) (Gen.Color.rgb2hsvV3 ⟨1 / 4, 1 / 2, 3 / 4⟩) = ⟨1 / 4, 1 / 2, 3 / 4⟩ :=
   gen_hsv2rgb_rgb2hsv (fun y => ⟨Int.floor_le y, Int.lt_floor_add_one y⟩) _ _ _ (by norm_num) (by norm_num) (by norm_num)
